@@ -386,11 +386,14 @@ DriftRound(ev) ==
 
 \* the same for the exact arithmetic entry points against AlgArith (operands at most 400 orders of magnitude apart)
 DriftArith(ev) ==
-  ev.k = "a" /\ ev.op \in {"add", "sub", "mul", "abs", "neg", "reduce", "cmp"} /\ ev.panic = "" /\ ~SysFlag(ev) /\ WFContext(ev.ctx)
+  ev.k = "a" /\ ev.op \in {"add", "sub", "mul", "abs", "neg", "reduce", "cmp", "quoint", "rem"} /\ ev.panic = "" /\ ~SysFlag(ev) /\ WFContext(ev.ctx)
+  /\ (ev.op \in {"quoint", "rem"} => ev.ctx.p > 0)
   /\ ev.x.f \in {FIN, INF} /\ ev.y.f \in {FIN, INF} /\ ev.x.e - ev.y.e \in -400..400 /\
   LET same(a) == a.f = ev.res.f /\ (a.f # QNAN => a.n = ev.res.n) /\ (a.f = FIN => (a.c = ev.res.c /\ a.e = ev.res.e)) /\ BitSet(ev.fl) = a.fl
   IN CASE ev.op \in {"add", "sub"} -> ~same(AlgAdd(ev.ctx, ev.x, ev.y, ev.op = "sub"))
        [] ev.op = "mul" -> ~same(AlgMul(ev.ctx, ev.x, ev.y))
+       [] ev.op = "quoint" -> ~same(AlgQuoInt(ev.ctx, ev.x, ev.y))
+       [] ev.op = "rem" -> ~same(AlgRem(ev.ctx, ev.x, ev.y))
        [] ev.op \in {"abs", "neg"} -> ~same(AlgUnary(ev.ctx, ev.x, ev.op))
        [] ev.op = "reduce" -> LET r == AlgReduce(ev.ctx, ev.x) IN ~(same(r.o) /\ r.cnt = ev.cnt)
        [] OTHER -> LET v == AlgCmp(ev.x, ev.y) IN
